@@ -762,7 +762,7 @@ pub fn evaluate_single(cfg: &RunCfg, rec: &RunRecord) -> (Vec<Finding>, Facts) {
 
     // ---------------------------------------------------------------- C08: ledger
     if kind.is_zst() {
-        let p = if cfg.panic.is_some() { "C18" } else { "C08" };
+        let p = if crate_panic(cfg) { "C18" } else { "C08" };
         let l = &rec.ledger;
         if l.zst_drops as usize != len {
             out.push(f(
@@ -791,7 +791,7 @@ pub fn evaluate_single(cfg: &RunCfg, rec: &RunRecord) -> (Vec<Finding>, Facts) {
             }
         }
     } else if kind.consuming() {
-        let p = if cfg.panic.is_some() { "C18" } else { "C08" };
+        let p = if crate_panic(cfg) { "C18" } else { "C08" };
         let l = &rec.ledger;
         if let Some((id, seq, t)) = l.double_drops.first() {
             out.push(f(
@@ -970,6 +970,12 @@ fn brief(r: &Res) -> String {
         } => format!("Chunk[{begin}, +{announced})"),
         other => format!("{:?}", other),
     }
+}
+
+/// A panic injected inside the crate's call tree (C18's sites), as opposed to a panic of the
+/// caller while it holds a chunk (C08).
+fn crate_panic(cfg: &RunCfg) -> bool {
+    matches!(cfg.panic, Some((s, _)) if s != crate::work::PanicSite::Consumer)
 }
 
 fn eval_queries(
